@@ -50,6 +50,9 @@ VError(why) == V("error", FALSE, 0, why, <<>>)
 
 Prims == { VNone, VBool(TRUE), VBool(FALSE), VInt(0), VInt(1), VStr("s") }
 Pairs == { VPair("a", VInt(1)), VPair("b", VStr("s")) }
+(* lookups against booleans (IntegerField compared with True is legal, if odd; a
+   BooleanField compared with 0 likewise) *)
+PairsB == { VPair("a", VBool(TRUE)), VPair("a", VInt(0)), VPair("a", VBool(FALSE)) }
 Conns == { "AND", "OR", "XOR" }
 
 SeqsUpTo2(S) == { <<>> } \cup { <<x>> : x \in S } \cup { <<x, y>> : x \in S, y \in S }
@@ -65,9 +68,11 @@ PairsX == { VPair("a", VF("b")), VPair("b", VValue(VInt(1))), VPair("a", VInt(1)
             VPair("a", VTuple(<<VInt(0), VInt(1)>>)),      \* Q(a__in=(0, 1))
             VPair("a", VList(<<VInt(1)>>)) }               \* Q(a__in=[1])
 Q3 == { VQ(c, n, ch) : c \in Conns, n \in BOOLEAN, ch \in Seqs1To2(PairsX) }
+Q4 == { VQ(c, n, ch) : c \in Conns, n \in BOOLEAN, ch \in Seqs1To2(PairsB \cup { VPair("a", VInt(1)) }) }
 
 Ops == { "+", "*", "-" }
 E0 == { VF("a"), VValue(VInt(1)) }
+EB == { VValue(VBool(TRUE)), VValue(VInt(0)), VComb(VF("a"), "+", VValue(VBool(TRUE))) }
 E1 == { VComb(l, op, r) : l \in E0, op \in Ops, r \in E0 }
 E2 == { VComb(l, op, r) : l \in E0 \cup E1, op \in Ops, r \in E0 \cup E1 }
 
@@ -77,7 +82,7 @@ Containers ==
     \cup { VDict("dict", <<VStr("k"), x>>) : x \in Prims }
     \cup { VList(<<VTuple(<<VStr("s")>>)>>), VTuple(<<VList(<<VInt(1)>>)>>) }
 
-Values == Prims \cup Q1 \cup Q2 \cup Q3 \cup E0 \cup E1 \cup E2 \cup Containers
+Values == Prims \cup Q1 \cup Q2 \cup Q3 \cup Q4 \cup EB \cup E0 \cup E1 \cup E2 \cup Containers
           \cup { VEnum("DEFERRED"), VEnum("IMMEDIATE") }
 
 Init == val \in Values
@@ -176,6 +181,22 @@ TuplesToLists(v) == IF v.t = "tuple" THEN VList(MapT2L(v.items))
                     ELSE IF v.items = <<>> THEN v
                     ELSE [v EXCEPT !.items = MapT2L(@)]
 
+(* Python compares and hashes True like 1 and False like 0.  A signature holds many
+   values at once (one per index / constraint of every model); two of them may differ
+   only in that respect.  Twin(v) is v with every int 0/1 swapped for the bool and
+   vice versa: the stored forms are different texts, and each must read back as
+   itself whatever else the same signature (or an earlier load) holds. *)
+RECURSIVE Twin(_)
+RECURSIVE MapTwin(_)
+MapTwin(xs) == IF xs = <<>> THEN <<>> ELSE <<Twin(Head(xs))>> \o MapTwin(Tail(xs))
+Twin(v) == CASE v.t = "int"  -> VBool(v.n = 1)
+             [] v.t = "bool" -> VInt(IF v.b THEN 1 ELSE 0)
+             [] v.items = <<>> -> v
+             [] OTHER -> [v EXCEPT !.items = MapTwin(@)]
+TwinsStoredApart == Twin(val) # val =>
+                      /\ Json2(Ser(Twin(val))) # Json2(Ser(val))
+                      /\ ReadBack(Twin(val)) # ReadBack(val)
+
 (* C06 *)
 ReadBackEqual == ReadBack(val) = val
 ReadBackEqualModuloTuples == TuplesToLists(ReadBack(val)) = TuplesToLists(val)
@@ -272,6 +293,7 @@ CViolations == { c \in {"ReadBackEqual", "ReadBackEqualModuloTuples", "Reseriali
 
 Emit == (EmitRecords /\ TLCGet("level") = 1) =>
           PrintT(<<"REC", ToJson([val |-> val, render |-> Render(val),
-                                   readback |-> ReadBack(val), viol |-> CViolations])>>)
+                                   readback |-> ReadBack(val), twin |-> Twin(val),
+                                   viol |-> CViolations])>>)
 Constraint == Emit
 =============================================================================
